@@ -75,6 +75,29 @@ pub fn write(target: &str, dir: &Path, seed: u64) -> Result<usize, String> {
                 files.push(f);
             }
         }
+        "fz_history" => {
+            // configuration bytes for every mechanism / transport / fingerprint combination followed by short
+            // operation strings (send, timer, deliver ...) — the decoder gives every byte string a meaning
+            let mut x = seed | 1;
+            let mut rnd = move || {
+                x ^= x << 13;
+                x ^= x >> 7;
+                x ^= x << 17;
+                (x >> 16) as u8
+            };
+            for b0 in [0u8, 1, 2, 3, 4, 5, 0x40, 0x44, 0x81, 0x84, 0xC2, 0xC5] {
+                for k in 0..6usize {
+                    let mut f = vec![b0, (k as u8) << 6, k as u8 * 37];
+                    // send, advance, deliver(success), timer, deliver 401 + send + deliver success
+                    f.extend_from_slice(&[0x00, 0x24, 0x09, 0x00, 0x00, 0x00, 0x00, 0x06]);
+                    f.extend_from_slice(&[0x00, 0x09, 0x00, 0x08, 0x31, 0x00, 0x0A, 0x00, 0x00, 0x09, 0x00, 0x00, 0x00, 0x00]);
+                    for _ in 0..(k * 25) {
+                        f.push(rnd());
+                    }
+                    files.push(f);
+                }
+            }
+        }
         _ => return Err(format!("unknown target {}", target)),
     }
     for (i, f) in files.iter().enumerate() {
